@@ -1000,24 +1000,27 @@ func TestVerif_C15(t *testing.T) {
 			nft.Mode = "nft"
 			hbfs.Explore(c, c15Spec(nft, 3, false))
 		} else {
-			for _, mode := range []string{"legacy", "nft"} {
-				for _, im := range []string{"insert", "append"} {
-					cfg := c15Cfg{Mode: mode, InsertMode: im, MaxFaults: 1, NoInv: true}
-					hbfs.Explore(c, c15Spec(cfg, 5, false))
-				}
-			}
+			// small explorations first, so that a deadline hit on a loaded machine cuts the big ones
+			hbfs.Explore(c, c15Spec(leg, 3, true))
 			two := leg
 			two.MaxFaults = 2
 			hbfs.Explore(c, c15Spec(two, 4, false))
 			pw := leg
 			pw.PostWrite = true
 			hbfs.Explore(c, c15Spec(pw, 4, false))
-			hbfs.Explore(c, c15Spec(leg, 3, true))
 		}
 		if C15NftExplore != nil {
 			C15NftExplore(c)
 		} else {
 			c.ToolError("nftables half of C15 not linked in")
+		}
+		if c.Thorough() {
+			for _, mode := range []string{"legacy", "nft"} {
+				for _, im := range []string{"insert", "append"} {
+					cfg := c15Cfg{Mode: mode, InsertMode: im, MaxFaults: 1, NoInv: true}
+					hbfs.Explore(c, c15Spec(cfg, 5, false))
+				}
+			}
 		}
 		c.Extra("applies_incl_probes", map[string]int64{"kernel_rejected_transactions": c15Rejected.Load(), "raced_with_other_program": c15Raced.Load(),
 			"with_injected_faults": c15FaultedApplies.Load(), "that_wrote_to_the_table": c15WritingApplies.Load()})
